@@ -54,6 +54,10 @@ func genDKV(r *rand.Rand, prop, tier string) simcore.Case {
 	cs.Cfg["mult"] = pick(2, 4, 10)
 	cs.Cfg["rank"] = pick(0, 0, 1, 2)
 	cs.Cfg["rankseed"] = int64(r.Uint32())
+	if (prop == "C07" || prop == "C08" || prop == "C09") && r.IntN(5) == 0 {
+		// a separate configuration: storage writes fail now and then (1 in N saves)
+		cs.Cfg["ioerr"] = pick(8, 20, 50)
+	}
 	nkeys := 3 + r.IntN(len(dkvKeys)-2)
 	cs.Cfg["nkeys"] = int64(nkeys)
 	nops := 20 + r.IntN(120)
@@ -424,6 +428,11 @@ func bodyDKV(c *sim.Ctx) {
 	installDKVHooks(c)
 	r := &dkvRun{c: c, disk: sim.NewDisk(c)}
 	dbgDisk = r.disk
+	ioerr := int(c.Cfg("ioerr", 0))
+	r.disk.FaultRate["save-error"] = ioerr
+	// under injected write errors an operation may fail and a background task may report
+	// the error; what is returned or restored must still never be wrong
+	injected := func(err error) bool { return ioerr > 0 && err != nil && strings.Contains(err.Error(), "injected") }
 	inst, err := r.open(nil, nil)
 	if err != nil {
 		c.Violate(prop+"/open-failed", "%v", err)
@@ -507,6 +516,10 @@ func bodyDKV(c *sim.Ctx) {
 			snap := copyModel(cur.model)
 			wait := cur.db.Checkpoint(id)
 			h, err := wait()
+			if injected(err) {
+				c.Probe("checkpoint-failed-by-injected-error") // not completed: never restored from
+				break
+			}
 			if err != nil {
 				c.Violate(prop+"/checkpoint-error", "op %d Checkpoint(%d): %v", i, id, err)
 				break
@@ -549,7 +562,7 @@ func bodyDKV(c *sim.Ctx) {
 				same = cur
 				c.Probe("redeploy-same-process")
 				// what Operator.HandleDeploy does with its previous database
-				if err := cur.db.Close(); err != nil {
+				if err := cur.db.Close(); err != nil && !injected(err) {
 					c.Violate(prop+"/background-task-error", "op %d Close before redeploy: %v", i, err)
 					break
 				}
@@ -589,7 +602,7 @@ func bodyDKV(c *sim.Ctx) {
 			for j, ck := range kept {
 				ids[j] = ck.id
 			}
-			if err := cur.db.UpdateRetainedCheckpoints(ids); err != nil {
+			if err := cur.db.UpdateRetainedCheckpoints(ids); err != nil && !injected(err) {
 				c.Violate(prop+"/retain-error", "op %d UpdateRetainedCheckpoints(%v): %v", i, ids, err)
 				break
 			}
@@ -610,7 +623,8 @@ func bodyDKV(c *sim.Ctx) {
 	}
 	// quiesce and check everything once more
 	simrt.SetGroup(r.cur.node)
-	if err := r.cur.db.WaitOnTasks(); err != nil {
+	r.disk.FaultRate["save-error"] = 0 // faults stop: the final checks run on a healthy disk
+	if err := r.cur.db.WaitOnTasks(); err != nil && !injected(err) {
 		c.Violate(prop+"/background-task-error", "WaitOnTasks: %v", err)
 		return
 	}
@@ -652,6 +666,9 @@ func (r *dkvRun) verifyRestore(ck *ckptRec, opIdx int) bool {
 	if !r.precheckRestore(ck, opIdx) {
 		return false
 	}
+	rate := r.disk.FaultRate["save-error"]
+	r.disk.FaultRate["save-error"] = 0 // the oracle's own instance reads and writes on a healthy disk
+	defer func() { r.disk.FaultRate["save-error"] = rate }()
 	ni, err := r.open([]recovery.CheckpointHandle{ck.handle}, nil, true)
 	if err != nil {
 		class := c.Prop + "/restore-failed"
